@@ -113,3 +113,63 @@ func ruleHeapCursor(c *Ctx, r *Result, rule string) {
 		}
 	}
 }
+
+func init() {
+	reg := registry["C15"]
+	reg.Meta.Rules["C15.6"] = "one object per heap block: a block registered in DirectBlocks is either the heap's own DirectBlock (the same pointer) or a newly built block with its own offset - never a field-by-field copy of a block that stays referenced elsewhere (overwrite/delete act on fh.DirectBlock, get/insert on the map: two objects for one block diverge)"
+	reg.Rules = append(reg.Rules, func(c *Ctx, r *Result) {
+		n := 0
+		for _, fn := range c.LibFuncs() {
+			if shortPkg(fnPkgPath(fn)) != "structures" {
+				continue
+			}
+			instrs(fn, func(in ssa.Instruction) {
+				mu, ok := in.(*ssa.MapUpdate)
+				if !ok {
+					return
+				}
+				k, _ := fieldLoadKey(mu.Map)
+				if k != "structures.WritableFractalHeap.DirectBlocks" {
+					return
+				}
+				n++
+				cons := c.Name(fn) + "#registered-block-is-the-block"
+				// (a) the heap's own block
+				if kk, _ := fieldLoadKey(mu.Value); kk == "structures.WritableFractalHeap.DirectBlock" {
+					r.Hold("C15.6", cons, c.InstrPos(mu), "the heap's DirectBlock itself is registered")
+					return
+				}
+				// (b) a new object: its BlockOffset must not be copied from another block's BlockOffset
+				al, isAl := mu.Value.(*ssa.Alloc)
+				if !isAl {
+					r.Undec("C15.6", cons, c.InstrPos(mu), "registered value is neither fh.DirectBlock nor a block built here")
+					return
+				}
+				copied := ""
+				for _, ref := range *al.Referrers() {
+					fa, ok := ref.(*ssa.FieldAddr)
+					if !ok {
+						continue
+					}
+					f, _ := fieldOfAddr(fa)
+					if f == nil || f.Name() != "BlockOffset" {
+						continue
+					}
+					for _, r2 := range *fa.Referrers() {
+						st, ok := r2.(*ssa.Store)
+						if !ok || st.Addr != ssa.Value(fa) {
+							continue
+						}
+						if kk, _ := fieldLoadKey(st.Val); kk == "structures.WritableDirectBlock.BlockOffset" {
+							copied = c.InstrPos(st)
+						}
+					}
+				}
+				r.Check(copied == "", "C15.6", cons, c.InstrPos(mu), "the registered block is a new object whose BlockOffset is copied from an existing block ("+copied+"): a second object for the same heap block")
+			})
+		}
+		if n == 0 {
+			r.Undec("C15.6", "structures#registered-block-is-the-block", "", "no update of WritableFractalHeap.DirectBlocks found")
+		}
+	})
+}
